@@ -42,7 +42,7 @@ def task_speval(shape):
         U, ks = H.sym_vector(ctx, shape)
         tau = ctx.sym("tau")
         for j in range(p + 1):
-            M = heavy.BasisFunction.speval_matrix(tuple(U), j)
+            M = chk.call(heavy.BasisFunction.speval_matrix, tuple(U), j)
             nspans = len(ks) - 1
             pairs = []
             ok_shape = len(M) == nspans and all(len(M[z]) == j + 1 and all(len(r) == j + 1 for r in M[z]) for z in range(nspans))
@@ -55,7 +55,7 @@ def task_speval(shape):
                 N = spec.cdb(U, j, kspec, u)
                 for y in range(j + 1):
                     i = y + kspec - j
-                    val = heavy.BasisFunction.horner_method(tuple(M[z][y]), tau) if False else _horner(M[z][y], tau)
+                    val = _horner(M[z][y], tau)
                     pairs.append(("span%d,y=%d" % (z, y), val, N[i]))
             chk.identities("post,j=%d" % j, pairs)
             chk.exact("exact,j=%d" % j, M)
@@ -92,10 +92,10 @@ def task_evalnodes(shape, rational):
                 W = [ctx.sym(x) for x in wn]
                 den = sum(w * v for w, v in zip(W, N))
                 ctx.nonzero_elems = [den.e]     # A8: the weight function has no zero (precondition of C01)
-                M = heavy.eval_rational_nodes(tuple(U), tuple(W), (t,), p)
+                M = chk.call(heavy.eval_rational_nodes, tuple(U), tuple(W), (t,), p)
                 S = [w * v / den for w, v in zip(W, N)]
             else:
-                M = heavy.eval_spline_nodes(tuple(U), (t,), p)
+                M = chk.call(heavy.eval_spline_nodes, tuple(U), (t,), p)
                 S = N
             ok = len(M) == n and all(len(r) == 1 for r in M)
             chk.add("shape", ok, "matrix is npts x len(nodes)")
@@ -132,16 +132,16 @@ def task_curve(shape, rational, dim):
             else:
                 P = [np.array([ctx.sym("P%d_%d" % (i, d)) for d in range(dim)], dtype=object) for i in range(n)]
             W = [ctx.sym(x) for x in wn] if rational else None
-            curve = curves.Curve(list(U), P, W)
+            curve = chk.call(curves.Curve, list(U), P, W)
             before = (tuple(curve.knotvector), curve.ctrlpoints, curve.weights)
             if not inside:
                 try:
-                    val = curve(t)
+                    val = chk.call(curve, t)
                     chk.add("outside-raises", False, "a parameter outside the interval returned %r" % (val,))
                 except ValueError:
                     chk.add("outside-raises", True, "ValueError")
                 try:
-                    val = curve.eval((ks[0], t))
+                    val = chk.call(curve.eval, (ks[0], t))
                     chk.add("outside-raises-seq", False, "a sequence with an outside parameter returned %r" % (val,))
                 except ValueError:
                     chk.add("outside-raises-seq", True, "ValueError")
@@ -157,7 +157,7 @@ def task_curve(shape, rational, dim):
             else:
                 R = N
             expect = sum(r * pt for r, pt in zip(R, P))
-            val = curve(t)
+            val = chk.call(curve, t)
             pairs = []
             if dim == 0:
                 pairs.append(("C(t)", val, expect))
@@ -174,7 +174,7 @@ def task_curve(shape, rational, dim):
             else:
                 R0 = N0
             expect0 = sum(r * pt for r, pt in zip(R0, P))
-            seq = curve.eval([t, ks[0], t])
+            seq = chk.call(curve.eval, [t, ks[0], t])
             ok = isinstance(seq, tuple) and len(seq) == 3
             chk.add("seq-shape", ok, "sequence of 3 nodes -> tuple of 3 points")
             if ok:
@@ -202,7 +202,11 @@ task_curve.contract_fn = "curves.Curve.eval"
 
 # --------------------------------------------------------------------------------------
 def tasks(tier, seed):
-    ts = []
+    from ..pyvc.driver import verify
+    from ..contracts import kv, misc
+    ts = [(verify, (kv.SPAN_SINGLE, "heavy", "ImmutableKnotVector.__span_single")),
+          (verify, (kv.VALID_SINGLE, "heavy", "ImmutableKnotVector.__valid_single")),
+          (verify, (misc.HORNER, "heavy", "BasisFunction.horner_method"))]
     for sh in tier_shapes(tier):
         ts.append((task_speval, (sh,)))
         ts.append((task_evalnodes, (sh, False)))
@@ -237,7 +241,7 @@ def replay(o):
         bad = []
         obs = []
         for j in range(p + 1):
-            M = heavy.BasisFunction.speval_matrix(tuple(U), j)
+            M = chk.call(heavy.BasisFunction.speval_matrix, tuple(U), j)
             for z in range(len(ks) - 1):
                 for tau in (Fraction(1, 3), Fraction(3, 5), Fraction(0), pt.get("tau", Fraction(1, 7))):
                     u = ks[z] + (ks[z + 1] - ks[z]) * tau
@@ -263,9 +267,9 @@ def replay(o):
         exp = spec.basis(U, p, p, t, W)
         try:
             if rational:
-                M = heavy.eval_rational_nodes(tuple(U), tuple(W), (t,), p)
+                M = chk.call(heavy.eval_rational_nodes, tuple(U), tuple(W), (t,), p)
             else:
-                M = heavy.eval_spline_nodes(tuple(U), (t,), p)
+                M = chk.call(heavy.eval_spline_nodes, tuple(U), (t,), p)
             got = [M[i][0] for i in range(len(M))]
         except Exception as e:
             return True, exp, "%s: %s" % (type(e).__name__, e)
@@ -277,7 +281,7 @@ def replay(o):
             P = [pt["P%d_0" % i] for i in range(n)]
         else:
             P = [np.array([pt["P%d_%d" % (i, d)] for d in range(dim)], dtype=object) for i in range(n)]
-        curve = curves.Curve(list(U), P, W)
+        curve = chk.call(curves.Curve, list(U), P, W)
         if pos[0] in ("below", "above"):
             try:
                 v = curve(t)
@@ -289,7 +293,7 @@ def replay(o):
         exp = spec.curve_value(U, p, P, t, W)
         try:
             got = curve(t)
-            seq = curve.eval([t, ks[0], t])
+            seq = chk.call(curve.eval, [t, ks[0], t])
         except Exception as e:
             return True, exp, "%s: %s" % (type(e).__name__, e)
         exp0 = spec.curve_value(U, p, P, ks[0], W)
@@ -307,7 +311,8 @@ INFO = dict(
     assumptions=A.S_COMMON, trusted_base=A.TRUSTED, min_obligations=500,
     explanation="C01: contracts on the evaluation chain, callees inlined (each function also has its own contract, so a defect is "
                 "reported at the innermost function whose contract fails).",
-    functions=["heavy.BasisFunction.speval_matrix", "heavy.eval_spline_nodes", "heavy.eval_rational_nodes",
+    functions=["heavy.ImmutableKnotVector.__span_single (V)", "heavy.ImmutableKnotVector.__valid_single (V)",
+               "heavy.BasisFunction.horner_method (V)", "heavy.BasisFunction.speval_matrix", "heavy.eval_spline_nodes", "heavy.eval_rational_nodes",
                "curves.Curve.eval"],
     level="other",
 )
